@@ -1,9 +1,14 @@
 import Driver.Proto
 import Uft.Model.Replay
 /- C06 driver.
-   R <merge 0|1> <col 0|1> <forks a,b|-> <sel i,j|-> | <parent|-> <rec>* | <parent|-> <rec>* ...
+   R <merge 0|1> <col 0|1> <fx abc> <syms addr=name,...|-> <sel i,j|-> | <parent|-|?> <rec>* | <parent|-|?> <rec>* ...
      rec = E:<time>:<depth>:<addr> or X:<time>:<depth>:<addr>   (decimal)
      one `|` section per task, in info.tids order; sel = selected task indices (`-` = all)
+     fx = abc: a = 1 with the C06-FORK-LATEST repair, b = 1 with the C06-TID-ORPHAN repair, c = 1 with C06-EXEC-FAILED
+     syms: the symbol table (decimal address = name); a function is a fix-up by its name
+     parent: index of the task with tid = ppid, `?` = forked but the parent is no task, `-` = not forked
+   K <name> ...               -> class of each name: none exec setjmp longjmp fork
+   T                          -> fixup_syms of the model, in order
    ->  <line> ; <line> ; ... # <task> <k>:<addr> <k>:<addr> ; <task> ...
      line = <e|x|l> <task> <indent> <fn> <addr> <dur> <time> <delta> <elapsed>
    M | <rec>* | <rec>* ...     -> merged stream as <task>:<rec> ...
@@ -39,14 +44,26 @@ def parseRecs (ws : List String) : Option (List Rec) :=
     | some l, some r => some (r :: l)
     | _, _ => none) (some [])
 
-def parseTask : List String → Option (Option Nat × List Rec)
+def parseTask : List String → Option ((Option Nat × Bool) × List Rec)
   | p :: ws =>
     match parseRecs ws with
-    | some rs => if p = "-" then some (none, rs) else p.toNat?.map (fun n => (some n, rs))
+    | some rs =>
+      if p = "-" then some ((none, false), rs)
+      else if p = "?" then some ((none, true), rs)
+      else p.toNat?.map (fun n => ((some n, true), rs))
     | none => none
   | [] => none
 
-def parseTasks (secs : List (List String)) : Option (List (Option Nat × List Rec)) :=
+def parseSyms (s : String) : Option (List (Nat × String)) :=
+  if s = "-" then some [] else
+  (s.splitOn ",").foldr (fun w acc => match acc, w.splitOn "=" with
+    | some l, [a, n] => a.toNat?.map (fun a => (a, n) :: l)
+    | _, _ => none) (some [])
+
+def fixStr : Fix → String
+  | .none => "none" | .exec => "exec" | .setjmp => "setjmp" | .longjmp => "longjmp" | .fork => "fork"
+
+def parseTasks (secs : List (List String)) : Option (List ((Option Nat × Bool) × List Rec)) :=
   secs.foldr (fun s acc => match acc, parseTask s with
     | some l, some t => some (t :: l)
     | _, _ => none) (some [])
@@ -65,13 +82,19 @@ def showRec (r : Rec) : String :=
 
 def handle (ws : List String) : String :=
   match splitBar ws with
-  | ["R", m, c, forks, sel] :: secs =>
-    match parseNats forks, parseNats sel, parseTasks secs with
-    | some forks, some sel, some tasks =>
+  | ["R", m, c, fx, syms, sel] :: secs =>
+    match parseSyms syms, parseNats sel, parseTasks secs with
+    | some syms, some sel, some tasks =>
       let ts := tasks.map (·.2)
       let selF : Nat → Bool := fun i => sel.isEmpty || sel.contains i
       let ts' := selectTasks selF ts
-      let out := replay (m != "0") (fun a => forks.contains a) (g0 (tasks.map (·.1))) (merge ts')
+      let cls : Nat → Fix := fun a => match syms.lookup a with
+        | some n => classifyName n
+        | none => .none
+      let fxs : Fixes := { forkLatest := fx.toList.getD 0 '0' == '1', orphan := fx.toList.getD 1 '0' == '1',
+                           execFail := fx.toList.getD 2 '0' == '1' }
+      let outX := replayX fxs cls (m != "0") (w0 (tasks.map (·.1.1)) (tasks.map (·.1.2))) (merge ts')
+      let out := (outX.1.g, outX.2)
       let evs := match c.toNat? with
         | some 0 => out.2
         | some off => columnize off [] out.2
@@ -80,6 +103,8 @@ def handle (ws : List String) : String :=
       " ; ".intercalate (lines.map showLine) ++ " # " ++
         " ; ".intercalate ((remaining ts.length out.1).map showRem)
     | _, _, _ => "bad-op"
+  | ("K" :: names) :: [] => " ".intercalate (names.map (fun n => fixStr (classifyName n)))
+  | ["T"] :: [] => " ".intercalate fixupSyms
   | ["M"] :: secs =>
     match (secs.foldr (fun s acc => match acc, parseRecs s with
       | some l, some t => some (t :: l)
